@@ -30,12 +30,17 @@ def case_strategy(draw, tier="quick"):
     kind = draw(st.sampled_from(["rate_limit", "rate_limit", "rate_limit", "delay"]))
     iv = draw(st.sampled_from([0.25, 0.5, 1.0, 2.0, 1.5]))
     # the interval may be given as a duration string (documented: anything pandas.Timedelta reads)
-    spell = draw(st.sampled_from([None, None, "str"]))
+    spell = draw(st.sampled_from([None, None, "str", "np"]))
     ivs = {0.25: ["250ms", "0.25s"], 0.5: ["500ms", "0.5s"], 1.0: ["1s", "1000ms"],
            2.0: ["2s", "1s 1000ms"], 1.5: ["1.5s", "1s 500ms", "1500ms"]}
     p_ = {"i": iv}
-    if spell:
+    if spell == "str":
         p_["i_str"] = draw(st.sampled_from(ivs[iv]))
+    elif spell == "np":
+        # a numpy scalar is a number of seconds like any other
+        # (not float32: under NumPy 2 `time() + np.float32(i)` is a float32, see DESIGN 8.5)
+        p_["i_np"] = draw(st.sampled_from(["float64"] + (
+            ["int64", "int64", "int32"] if iv == int(iv) else [])))
     nodes.append({"k": kind, "u": [src], "p": p_, "t": "E"})
     nodes.append({"k": "sink", "u": [len(nodes) - 1], "p": {}, "t": None})
     spec = {"nodes": nodes, "fb": None}
@@ -44,7 +49,8 @@ def case_strategy(draw, tier="quick"):
                      st.integers(0, 5))
     burst = st.lists(emit, min_size=3, max_size=5)
     gap = st.tuples(st.just("adv"), st.sampled_from(
-        [iv, iv, 2 * iv, iv / 2, iv + 0.125, max(0.125, iv - 0.125), 0.125, 3 * iv]))
+        [iv, iv, 2 * iv, iv / 2, iv + 0.125, max(0.125, iv - 0.125), 0.125, 3 * iv,
+         iv - 2.0 ** -11, 2.0 ** -11]))   # (just under half a millisecond before / after a slot)
     fin = st.tuples(st.just("fin"), st.just(0), st.integers(0, 2))
     step = st.one_of(emit.map(lambda e: [e]), burst, gap.map(lambda g: [g]),
                      fin.map(lambda f: [f]), gap.map(lambda g: [g]))
